@@ -9,4 +9,5 @@ $GO build -trimpath -o bin/vcheck ./cmd/vcheck
 if [ -d cmd/instrument ] && ls cmd/instrument/*.go >/dev/null 2>&1; then
   $GO build -trimpath -o bin/instrument ./cmd/instrument
 fi
+./bin/vcheck -warm
 echo "setup ok"
